@@ -14,14 +14,14 @@ var libModels map[string]libFn
 var libInvoke map[string]libInvokeFn
 var libInvokeMods = map[string][]string{
 	"io.Writer.Write":    {"W"},
-	"net.Conn.Write":     {"W", "NW"},
-	"net.Conn.Close":     {"closed"},
+	"net.Conn.Write":     {"wok", "wbytes", "wfail"},
+	"net.Conn.Close":     {"closedC"},
 	"net.Listener.Close": {},
 }
 
 func libAllocates(name string) bool {
 	switch name {
-	case "bytes.NewBuffer", "bufio.NewReader", "bufio.NewReaderSize", "errors.New", "fmt.Errorf":
+	case "bytes.NewBuffer", "bufio.NewReader", "bufio.NewReaderSize", "errors.New", "fmt.Errorf", "net.DialTCP", "net.Dial":
 		return true
 	}
 	return false
@@ -42,6 +42,8 @@ func libModVars(ex *Exec, name string) []string {
 		return reg("W")
 	case "time.Now":
 		return reg("now")
+	case "net.DialTCP", "net.Dial":
+		return reg("dials", "dialok")
 	case "(*sync.Mutex).Lock", "(*sync.Mutex).Unlock":
 		return reg("held")
 	case "(*net.UDPConn).WriteToUDP":
@@ -97,6 +99,32 @@ func ownerOf(v *Val) string {
 
 func init() {
 	libInvoke = map[string]libInvokeFn{
+		"net.Conn.Write": func(fr *Frame, ins ssa.Instruction, recv *Val, args []*Val, rs *Sort) *Val {
+			// io.Writer contract: either the whole buffer is written and err == nil, or err != nil
+			ex := fr.ex
+			vc := ex.vc
+			errv := fr.havocVal("cwerr", SAny)
+			n := vc.fresh("cwn", SInt)
+			vc.assume(and("(>= "+n+" 0)", "(<= "+n+" (str.len "+args[0].T+"))", imp(eq(errv.T, "anyNil"), eq(n, "(str.len "+args[0].T+")"))))
+			ok := eq(errv.T, "anyNil")
+			for _, g := range [][3]string{{"wok", "(seq.unit " + recv.T + ")", "1"}, {"wbytes", "(seq.unit " + args[0].T + ")", "1"}, {"wfail", "(seq.unit " + recv.T + ")", "0"}} {
+				gv := fr.ghost(g[0])
+				old := ex.get(fr.cur, gv)
+				app := "(seq.++ " + old + " " + g[1] + ")"
+				if g[2] == "1" {
+					ex.set(fr.cur, gv, ite(ok, app, old))
+				} else {
+					ex.set(fr.cur, gv, ite(ok, old, app))
+				}
+			}
+			return tuple(&Val{T: n, S: SInt}, errv)
+		},
+		"net.Conn.Close": func(fr *Frame, ins ssa.Instruction, recv *Val, args []*Val, rs *Sort) *Val {
+			ex := fr.ex
+			gv := fr.ghost("closedC")
+			ex.set(fr.cur, gv, "(seq.++ "+ex.get(fr.cur, gv)+" (seq.unit "+recv.T+"))")
+			return fr.havocVal("closeerr", SAny)
+		},
 		"io.Writer.Write": func(fr *Frame, ins ssa.Instruction, recv *Val, args []*Val, rs *Sort) *Val {
 			return fr.writerWrite(recv, args[0].T)
 		},
@@ -231,6 +259,12 @@ func init() {
 		"net.ParseIP": func(fr *Frame, ins ssa.Instruction, a []*Val, rs *Sort) *Val {
 			// result modelled by length: 0 (nil) or 16
 			return &Val{T: "(parseIP " + a[0].T + ")", S: SString}
+		},
+		"net.DialTCP": func(fr *Frame, ins ssa.Instruction, a []*Val, rs *Sort) *Val {
+			return fr.dial(ins, false)
+		},
+		"net.Dial": func(fr *Frame, ins ssa.Instruction, a []*Val, rs *Sort) *Val {
+			return fr.dial(ins, true)
 		},
 		"regexp.MatchString": func(fr *Frame, ins ssa.Instruction, a []*Val, rs *Sort) *Val {
 			errv := fr.havocVal("re_err", SAny)
@@ -393,4 +427,24 @@ func (fr *Frame) callLib(ins ssa.Instruction, callee *ssa.Function, args []*Val,
 	}
 	ex.vc.note("library call " + name + ": results unconstrained, no effect on tracked state")
 	return fr.havocVal("lib_"+callee.Name(), resSort)
+}
+
+// dial models net.Dial / net.DialTCP: a fresh connection or an error; the outcome is unconstrained.
+func (fr *Frame) dial(ins ssa.Instruction, asIface bool) *Val {
+	ex := fr.ex
+	vc := ex.vc
+	errv := fr.havocVal("dialerr", SAny)
+	r := ex.alloc(fr.cur, "conn")
+	id := ex.typeIDByName("*net.TCPConn")
+	anyConn := fmt.Sprintf("(mkAny %d %s \"\")", id, r)
+	gv := fr.ghost("dials")
+	ex.set(fr.cur, gv, "(seq.++ "+ex.get(fr.cur, gv)+" (seq.unit "+ite(eq(errv.T, "anyNil"), anyConn, "anyNil")+"))")
+	gk := fr.ghost("dialok")
+	ex.set(fr.cur, gk, ite(eq(errv.T, "anyNil"), "(seq.++ "+ex.get(fr.cur, gk)+" (seq.unit "+anyConn+"))", ex.get(fr.cur, gk)))
+	if asIface {
+		c := vc.define("dialconn", SAny, ite(eq(errv.T, "anyNil"), anyConn, "anyNil"))
+		return tuple(&Val{T: c, S: SAny}, errv)
+	}
+	c := vc.define("dialconn", SRef("net_TCPConn"), ite(eq(errv.T, "anyNil"), r, "0"))
+	return tuple(&Val{T: c, S: SRef("net_TCPConn")}, errv)
 }
